@@ -2,6 +2,7 @@ package main
 
 import (
 	"bytes"
+	"crypto/md5"
 	"encoding/json"
 	"fmt"
 	"net/url"
@@ -766,4 +767,35 @@ func fullCompareG(w *GCSWorld, m *gModel) (string, string) {
 		}
 	}
 	return "", ""
+}
+
+// rawStateG is the complete metadata resource of every object the model knows, exactly as the
+// emulator reports it (every member, not only the ones the model follows), and its content.
+// "A failed request changes nothing" is decided on this rendering.
+func rawStateG(w *GCSWorld, m *gModel) map[string]string {
+	out := map[string]string{}
+	for _, b := range m.bucketNames() {
+		for _, n := range m.names(b) {
+			g := w.GetMeta(b, n)
+			var v interface{}
+			body := string(g.Body)
+			if json.Unmarshal(g.Body, &v) == nil {
+				if c, err := json.Marshal(v); err == nil { // members sorted
+					body = string(c)
+				}
+			}
+			md := w.GetMedia(b, n, 0)
+			out[b+"/"+n] = fmt.Sprintf("HTTP %d %s | media HTTP %d %x", g.Status, body, md.Status, md5.Sum(md.Body))
+		}
+	}
+	return out
+}
+
+func diffRawG(a, b map[string]string) string {
+	for k, v := range a {
+		if b[k] != v {
+			return fmt.Sprintf("object %s was %s and is now %s", k, v, b[k])
+		}
+	}
+	return ""
 }
